@@ -1,0 +1,5 @@
+//go:build !verif
+
+package region
+
+func vhook(string, any, any) {}
